@@ -112,7 +112,12 @@ func (cc *cacheController) coRead(r ccReadReq) ccReadResp {
 	if resp.wait {
 		return ccReadResp{}
 	}
-	cc.rlockSems[getAlignedMemoryAddress(r.addrs)] = sem
+	if resp.exclusive {
+		// Released with Unlock if the request is cancelled
+		cc.lockSems[getAlignedMemoryAddress(r.addrs)] = sem
+	} else {
+		cc.rlockSems[getAlignedMemoryAddress(r.addrs)] = sem
+	}
 	return cc.read.ExecuteWithCheckpoint(r, func(r ccReadReq) ccReadResp {
 		for _, pending := range resp.pendings {
 			if !pending.isDone() {
@@ -170,6 +175,7 @@ func (cc *cacheController) coReadFromL1(r ccReadReq) ccReadResp {
 		cc.post = nil
 		cc.read.Reset()
 		delete(cc.rlockSems, getAlignedMemoryAddress(r.addrs))
+		delete(cc.lockSems, getAlignedMemoryAddress(r.addrs))
 		return ccReadResp{data, true}
 	})
 }
